@@ -201,7 +201,7 @@ def c17(c):
             c.stream("xmatrix", ["xmatrix", c.seed, 300, 6, 3], "matrix")
         else:
             c.stream("xmatrix", ["xmatrix", c.seed, 6000, 8, 4], "matrix")
-        generic_monitor(c, "matrix_oracle", ["matrix-oracle", c.seed, 400 if c.tier == "quick" else 6000, 6 if c.tier == "quick" else 8], "moracle")
+        generic_monitor(c, "matrix_oracle", ["matrix-oracle", c.seed, 4000 if c.tier == "quick" else 80000, 6 if c.tier == "quick" else 8], "moracle")
     c.cov["samples"] += [
         {"theorem": "Mat.addSub_dense", "statement": "WF A → WF B → A.n = B.n → ∃ C, addSub isAdd A B = some C ∧ WF C ∧ ∀ i j < n, entry C i j = entry A i j ± entry B i j  (all 9 storage pairs, all bandwidths, all n)"},
         {"theorem": "Mat.set_spec", "statement": "in-band/Full write: ∃ A', set A i j v = some A' ∧ WF A' ∧ ∀ i' j', entry A' i' j' = if (i',j')=(i,j) then v else entry A i' j'"},
